@@ -6,7 +6,7 @@ Fixtures: tiny series / panel data and, for classes with required constructor ar
 configuration (adapted from sktime/tests/_config.py, which cannot be imported here because it needs
 hcrystalball).  Nothing in /repo is modified.
 """
-import sys, os, inspect, importlib, types, warnings, time, copy
+import sys, os, inspect, importlib, types, warnings, time, copy, threading
 import numpy as np, pandas as pd
 from common import canon_err
 
@@ -29,6 +29,9 @@ class _StubModule(types.ModuleType):
 
 
 def install_stubs():
+    import math
+    if not hasattr(np, "math"):
+        np.math = math          # removed in numpy 2 (sktime 0.6.0 calls np.math.* in the proximity forest)
     for m in _STUBBED:
         if m not in sys.modules:
             try:
@@ -37,13 +40,48 @@ def install_stubs():
                 sys.modules[m] = _StubModule(m)
 
 
+def uses_stub(cls):
+    """the defining module of the class (or of a base) imported names from a placeholder module"""
+    for c in cls.__mro__:
+        m = sys.modules.get(c.__module__)
+        if m is None or not (c.__module__ or "").startswith("sktime"):
+            continue
+        for v in vars(m).values():
+            if isinstance(v, _StubModule) or getattr(v, "__qualname__", "").startswith("_StubModule.__getattr__"):
+                return True
+    return False
+
+
+def _unabstract(cls):
+    """sklearn >= 1.4 made `BaseForest._set_oob_score_and_attributes` abstract; sktime 0.6.0's composable
+    forests (written against 0.24) do not define it and could not be instantiated at all."""
+    name = "_set_oob_score_and_attributes"
+    for c in cls.__mro__:
+        if (c.__module__ or "").startswith("sktime") and name in getattr(c, "__abstractmethods__", ()):
+            if name not in c.__dict__ and not any(name in b.__dict__ for b in c.__mro__ if (b.__module__ or "").startswith("sktime")):
+                setattr(c, name, lambda self, X, y, scoring_function=None: None)
+            c.__abstractmethods__ = frozenset(x for x in c.__abstractmethods__ if x != name)
+
+
+# observations that are artefacts of the compatibility layer, not of /repo (each with its reason)
+COMPAT_ARTEFACTS = {
+    ("ComposableTimeSeriesForestClassifier", "ctor", "estimator"):
+        "skcompat aliases sklearn's removed `base_estimator` to `estimator`, which this class uses for its own parameter",
+    ("ComposableTimeSeriesForestRegressor", "ctor", "estimator"):
+        "skcompat aliases sklearn's removed `base_estimator` to `estimator`, which this class uses for its own parameter",
+}
+
+
 def load_class(module, name):
     install_stubs()
     try:
         with warnings.catch_warnings():
             warnings.simplefilter("ignore")
             m = importlib.import_module(module)
-        return getattr(m, name), None
+        cls = getattr(m, name)
+        if isinstance(cls, type):
+            _unabstract(cls)
+        return cls, None
     except BaseException as e:       # soft dependency missing etc.
         return None, "%s: %s" % (type(e).__name__, str(e)[:80])
 
@@ -184,8 +222,12 @@ def fixture_params(name):
         P = {"window_inc": 4}
     elif name == "WEASEL":
         P = {"window_inc": 4}
-    elif name in ("Rocket", "MiniRocket", "MiniRocketMultivariate"):
-        P = {"num_kernels": 84} if name != "Rocket" else {"num_kernels": 20}
+    elif name == "Rocket":
+        P = {"num_kernels": 20}
+    elif name == "IntervalSegmenter":
+        P = {"intervals": 2}
+    elif name == "_HeterogenousEnsembleForecaster":
+        P = {"forecasters": [("f1", naive()), ("f2", naive(strategy="mean"))]}
     elif name == "RandomIntervalFeatureExtractor":
         P = {"n_intervals": 2}
     elif name in ("TSCStrategy", "TSRStrategy"):
@@ -241,6 +283,36 @@ def data():
     return _DATA
 
 
+class _Timeout(BaseException):
+    pass
+
+
+class time_limit:
+    """SIGALRM based limit for one fit / call (main thread only)"""
+    def __init__(self, seconds):
+        self.seconds = seconds
+
+    def __enter__(self):
+        import signal
+        self.ok = threading.current_thread() is threading.main_thread() and self.seconds > 0
+        if self.ok:
+            def handler(signum, frame):
+                raise _Timeout()
+            self.old = signal.signal(signal.SIGALRM, handler)
+            signal.setitimer(signal.ITIMER_REAL, self.seconds)
+        return self
+
+    def __exit__(self, *exc):
+        import signal
+        if self.ok:
+            signal.setitimer(signal.ITIMER_REAL, 0)
+            signal.signal(signal.SIGALRM, self.old)
+        return False
+
+
+SKIP_FIT = {"HIVECOTEV1": "default configuration trains four ensembles (hours)"}
+
+
 class Sentinel:
     """an argument no constructor has any business looking into"""
     def __init__(self, tag):
@@ -254,12 +326,15 @@ def _is_notfitted(e):
     return any(c.__name__ == "NotFittedError" for c in type(e).__mro__)
 
 
-def _outcome(f):
+def _outcome(f, limit=10.0):
     try:
         with warnings.catch_warnings():
             warnings.simplefilter("ignore")
-            f()
+            with time_limit(limit):
+                f()
         return "ok"
+    except _Timeout:
+        return "skip"
     except BaseException as e:
         if isinstance(e, (KeyboardInterrupt, SystemExit)):
             raise
@@ -278,6 +353,45 @@ def _same(a, b):
     return False
 
 
+def _equiv(a, b, identity_leaves, depth=0):
+    """a and b are the same parameter value: containers elementwise; estimators by class and parameters
+    (or by identity when `identity_leaves`); everything else by identity or plain equality"""
+    if a is b:
+        return True
+    if depth > 6:
+        return True
+    if isinstance(a, Sentinel) and isinstance(b, Sentinel):
+        return a.tag == b.tag and not identity_leaves
+    if type(a) is not type(b):
+        return False
+    if isinstance(a, (list, tuple)):
+        return len(a) == len(b) and all(_equiv(x, y, identity_leaves, depth + 1) for x, y in zip(a, b))
+    if isinstance(a, dict):
+        return set(a) == set(b) and all(_equiv(a[k], b[k], identity_leaves, depth + 1) for k in a)
+    if hasattr(a, "get_params") and not isinstance(a, type):
+        if identity_leaves:
+            return False
+        try:
+            ga, gb = a.get_params(deep=False), b.get_params(deep=False)
+        except Exception:
+            return False
+        return set(ga) == set(gb) and all(_equiv(ga[k], gb[k], identity_leaves, depth + 1) for k in ga)
+    if isinstance(a, np.ndarray):
+        return a.shape == b.shape and bool(np.all((a == b) | ((a != a) & (b != b)))) if a.dtype.kind == "f" else a.shape == b.shape and bool(np.all(a == b))
+    if isinstance(a, float) and a != a:
+        return b != b
+    if isinstance(a, (int, float, str, bool, type(None), bytes)):
+        return a == b
+    if identity_leaves:
+        return False
+    try:
+        if bool(a == b):
+            return True
+    except Exception:
+        pass
+    return repr(a) == repr(b) or type(a).__module__.startswith(("sktime", "sklearn", "numpy", "pandas"))
+
+
 def _snapshot(v, depth=0):
     """structural snapshot of a parameter value (to notice in-place mutation across fit)"""
     if depth > 4:
@@ -293,7 +407,9 @@ def _snapshot(v, depth=0):
         return tuple(sorted((str(k), _snapshot(x, depth + 1)) for k, x in v.items()))
     if isinstance(v, np.ndarray):
         return ("nd", v.shape, v.tobytes()[:64])
-    if isinstance(v, (int, float, str, bool, type(None))):
+    if isinstance(v, float):
+        return repr(v)
+    if isinstance(v, (int, str, bool, type(None))):
         return v
     return ("obj", type(v).__name__, id(v))
 
@@ -319,7 +435,37 @@ def get_impl_token(cls):
     return "c"
 
 
+_SK_CHECK_ARRAY_CODE = None
+
+
+def _guard_globals():
+    """KNeighborsTimeSeriesClassifier.fit/predict swap `sklearn.utils.validation.check_array.__code__`
+    and restore it only on the success path; when they raise (here: because of the newer sklearn) the
+    whole process is left with a patched sklearn.  Undo that between observations."""
+    global _SK_CHECK_ARRAY_CODE
+    import sklearn.utils.validation as V
+    f = getattr(V.check_array, "__wrapped__", V.check_array)
+    if _SK_CHECK_ARRAY_CODE is None:
+        _SK_CHECK_ARRAY_CODE = f.__code__
+        return False
+    if f.__code__ is not _SK_CHECK_ARRAY_CODE:
+        f.__code__ = _SK_CHECK_ARRAY_CODE
+        return True
+    return False
+
+
 def probe_class(module, name, key, table_params, do_fit=True, budget_s=20.0):
+    _guard_globals()
+    try:
+        obs = _probe_class(module, name, key, table_params, do_fit, budget_s)
+    finally:
+        polluted = _guard_globals()
+    if polluted:
+        obs["fitdiag"] = (obs.get("fitdiag") or "") + " [left sklearn.check_array patched]"
+    return obs
+
+
+def _probe_class(module, name, key, table_params, do_fit=True, budget_s=20.0):
     """Observe one class.  Returns dict of tokens; "skip" where nothing could be observed."""
     obs = {"import": "ok", "params": None, "ctor": None, "extra": "skip", "fresh": "skip", "get": "skip",
            "rt": "skip", "cl": "skip", "unk": "skip", "guards": ["skip"] * len(APPLY), "fit": None,
@@ -362,18 +508,25 @@ def probe_class(module, name, key, table_params, do_fit=True, budget_s=20.0):
                     st = "M"
             if "SCMR".index(st) > "SCMR".index(worst):
                 worst = st
+        if (name, "ctor", p.name) in COMPAT_ARTEFACTS:
+            worst = "skip"
         ctor.append(worst)
     obs["ctor"] = ctor
     # ---- default instance
     try:
+        fx = fixture_params(name)
+    except BaseException:
+        fx = {}
+    required_fx = {k: fx.get(k, v) for k, v in required.items()}
+    try:
         with warnings.catch_warnings():
             warnings.simplefilter("ignore")
-            base = cls(**required)
+            base = cls(**required_fx)
     except BaseException as e:
         base = None
         obs["fitdiag"] = "default construction failed: %s" % canon_err(e)
     try:
-        cls(**dict(required, zz_not_a_parameter=1))
+        cls(**dict(required_fx, zz_not_a_parameter=1))
         obs["extra"] = "A"
     except TypeError:
         obs["extra"] = "R"
@@ -390,12 +543,12 @@ def probe_class(module, name, key, table_params, do_fit=True, budget_s=20.0):
             gp = base.get_params(deep=False)
             bad = [k for k in obs["params"] if k not in gp]
             for k, p in zip(obs["params"], params):
-                if k in gp and k in required and gp[k] is not required[k]:
+                if k in gp and k in required_fx and gp[k] is not required_fx[k]:
                     bad.append(k)
             before = {k: v for k, v in base.get_params(deep=True).items()}
             base.set_params(**before)
             after = base.get_params(deep=True)
-            if set(before) != set(after) or any(before[k] is not after[k] for k in before):
+            if set(before) != set(after) or any(not _equiv(before[k], after[k], True) for k in before):
                 obs["rt"] = "changed"
             else:
                 obs["rt"] = "ok" if not bad else "missing:" + ",".join(sorted(set(bad)))
@@ -405,9 +558,7 @@ def probe_class(module, name, key, table_params, do_fit=True, budget_s=20.0):
             from sklearn.base import clone
             c = clone(base)
             g1, g2 = base.get_params(deep=False), c.get_params(deep=False)
-            okc = type(c) is type(base) and set(g1) == set(g2) and all(
-                _same(g1[k], g2[k]) or isinstance(g1[k], Sentinel) and isinstance(g2[k], Sentinel) and g1[k].tag == g2[k].tag
-                for k in g1)
+            okc = type(c) is type(base) and set(g1) == set(g2) and all(_equiv(g1[k], g2[k], False) for k in g1)
             obs["cl"] = "ok" if okc else "changed"
             if okc:
                 try:
@@ -424,6 +575,12 @@ def probe_class(module, name, key, table_params, do_fit=True, budget_s=20.0):
     # ---- fitted state
     if name in ABSTRACT or fam == "other" or not do_fit:
         return obs
+    if name in SKIP_FIT:
+        obs["fitdiag"] = "fit skipped: " + SKIP_FIT[name]
+        do_fit = False
+    elif uses_stub(cls):
+        obs["fitdiag"] = "fit skipped: compiled extension module not built in this sandbox"
+        do_fit = False
     D = data()
     try:
         with warnings.catch_warnings():
@@ -432,7 +589,7 @@ def probe_class(module, name, key, table_params, do_fit=True, budget_s=20.0):
     except BaseException as e:
         obs["fitdiag"] = "fixture construction failed: %s %s" % (canon_err(e), str(e)[:80])
         return obs
-    methods = [m for m in APPLY if callable(getattr(type(est), m, None)) or _has_method(est, m)]
+    methods = [m for m in APPLY if _has_method(est, m)]
     guards = {}
     for m in methods:
         a, k = call_args(fam, m, D)
@@ -447,13 +604,18 @@ def probe_class(module, name, key, table_params, do_fit=True, budget_s=20.0):
     a, k = fit_args(fam, name, D)
     fitted_ok = False
     try:
+        if not do_fit:
+            raise _Timeout()
         import joblib
         with warnings.catch_warnings():
             warnings.simplefilter("ignore")
             with joblib.parallel_backend("threading"):
-                r = est.fit(*a, **k)
+                with time_limit(budget_s):
+                    r = est.fit(*a, **k)
         obs["ret"] = "self" if r is est else "other"
         fitted_ok = True
+    except _Timeout:
+        obs["fitdiag"] = obs["fitdiag"] or "fit exceeded %.0fs" % budget_s
     except BaseException as e:
         if isinstance(e, (KeyboardInterrupt, SystemExit)):
             raise
